@@ -12,21 +12,20 @@ Stop(v) == verdict' = v /\ UNCHANGED <<tid, i, o>>
 Step ==
   /\ verdict = "run"
   /\ IF i > Len(Src) /\ o > Len(Out) THEN Stop("ok")
-     ELSE IF i > Len(Src) THEN
-        \* a missing final newline may be supplied by a cart writer, not by to_lines
-        Stop("output-longer")
-     ELSE IF o > Len(Out) THEN Stop("output-shorter")
-     ELSE LET ti == NextTok(Src, i) to == NextTok(Out, o) IN
-       IF ti.k \in Bad THEN Stop("ood-input")
-       ELSE IF to.k \in Bad THEN Stop("lex-out")
-       ELSE IF ti.k # to.k THEN Stop("kind")
-       ELSE IF ti.k # "str" THEN
-          (IF SubSeq(Src, i, ti.e - 1) = SubSeq(Out, o, to.e - 1)
-           THEN i' = ti.e /\ o' = to.e /\ UNCHANGED <<tid, verdict>> ELSE Stop("bytes"))
-       ELSE LET va == StrValue(Src, i, ti.e) vb == StrValue(Out, o, to.e) IN
-          IF ~va.ok THEN Stop("ood-input")
-          ELSE IF vb.ok /\ va.v = vb.v THEN i' = ti.e /\ o' = to.e /\ UNCHANGED <<tid, verdict>>
-          ELSE Stop("strval")
+     ELSE IF i > Len(Src) THEN Stop("output-longer")
+     ELSE LET ti == NextTok(Src, i) IN
+       IF ti.k \in Bad THEN Stop("ood")
+       ELSE IF ti.k = "str" /\ ~StrValue(Src, i, ti.e).ok THEN Stop("ood")
+       ELSE IF o > Len(Out) THEN Stop("output-shorter")
+       ELSE LET to == NextTok(Out, o) IN
+         IF to.k \in Bad THEN Stop("lex-out")
+         ELSE IF ti.k # to.k THEN Stop("kind")
+         ELSE IF ti.k # "str" THEN
+            (IF SubSeq(Src, i, ti.e - 1) = SubSeq(Out, o, to.e - 1)
+             THEN i' = ti.e /\ o' = to.e /\ UNCHANGED <<tid, verdict>> ELSE Stop("bytes"))
+         ELSE LET va == StrValue(Src, i, ti.e) vb == StrValue(Out, o, to.e) IN
+            IF vb.ok /\ va.v = vb.v THEN i' = ti.e /\ o' = to.e /\ UNCHANGED <<tid, verdict>>
+            ELSE Stop("strval")
 Spec == Init /\ [][Step]_vars
 Report == (verdict # "run") => PrintT(<<"VERDICT", tid, verdict, i, o>>)
 =============================================================================
